@@ -14,7 +14,7 @@ from vf.gast import grammar_text, tup
 
 PROPERTY = 'C16'
 RULE = ('rule graphs with 1-3 rules (r0..r2) whose bodies are choices of <= 2 alternatives `[prefix] head [tail]`, prefix in {none, [\'t\'], '
-        '{\'t\'}, [r], {r}}, head in {call to any rule, \'t\'}, tail in {none, \'u\'}: exhaustive for 1 rule (420 graphs) and for 2 rules with '
+        '{\'t\'}, [r], {r}} (and, in the positive-closure tier and half of the sampled graphs, {[\'t\']}+ {\'t\'}+ {[r]}+ {r}+), head in {call to any rule, \'t\'}, tail in {none, \'u\'}: exhaustive for 1 rule (420 graphs) and for 2 rules with '
         'single-alternative bodies (1764 graphs); Hypothesis-sampled for 2 rules x 2 alternatives, 3 rules, and random graphs of 4-6 rules; '
         'each graph: compile with @@left_recursion :: False (GrammarError iff my analysis finds a left-call cycle), compile with left '
         'recursion on (is_lrec / is_memo flags against my cycle membership), and a battery of all strings over {t,u} up to 3 lexemes parsed '
@@ -29,11 +29,16 @@ BUDGET_S = {'quick': 150, 'thorough': 1500}
 
 
 # ------------------------------------------------------------------ graph construction
-def alternatives(nrules):
+def alternatives(nrules, plus=False):
     names = [f'r{i}' for i in range(nrules)]
     prefixes = [None, ('opt', ('tok', 't')), ('star', ('tok', 't'))]
+    if plus:
+        # positive closures: over a body that can match empty (then the closure can too) and over one that cannot
+        prefixes += [('plus', ('opt', ('tok', 't'))), ('plus', ('tok', 't'))]
     for r in names:
         prefixes += [('opt', ('call', r)), ('star', ('call', r))]
+        if plus:
+            prefixes += [('plus', ('opt', ('call', r))), ('plus', ('call', r))]
     heads = [('call', r) for r in names] + [('tok', 't')]
     tails = [None, ('tok', 'u')]
     out = []
@@ -43,8 +48,8 @@ def alternatives(nrules):
     return out
 
 
-def bodies(nrules, maxalts):
-    alts = alternatives(nrules)
+def bodies(nrules, maxalts, plus=False):
+    alts = alternatives(nrules, plus)
     out = list(alts)
     if maxalts >= 2:
         out += [('alt', (a, b)) for a in alts for b in alts]
@@ -63,6 +68,8 @@ def analyse(rules):
             return False
         if k in ('opt', 'star'):
             return True
+        if k == 'plus':
+            return isnull(e[1])
         if k == 'call':
             return nullable[e[1]]
         if k == 'seq':
@@ -91,6 +98,8 @@ def analyse(rules):
         if k in ('opt', 'star'):
             leftcalls(e[1], out)
             return True
+        if k == 'plus':
+            return leftcalls(e[1], out)
         if k == 'alt':
             res = False
             for x in e[1]:
@@ -101,11 +110,13 @@ def analyse(rules):
                 cont = leftcalls(x, out)
                 if x[0] == 'call' and nullable[x[1]] and i + 1 < len(e[1]):
                     flags['nullable_call_prefix'] = True
-                if x[0] in ('opt', 'star') and i + 1 < len(e[1]):
+                if x[0] in ('opt', 'star', 'plus') and i + 1 < len(e[1]):
                     inner = x[1]
+                    while inner[0] in ('opt', 'star', 'plus'):
+                        inner = inner[1]
                     if inner[0] == 'call' and nullable[inner[1]]:
                         flags['nullable_call_prefix'] = True
-                    if e[1][i + 1][0] == 'call':
+                    if e[1][i + 1][0] == 'call' and isnull(x):
                         flags['nullable_prefix_before_call'] = True
                 if not cont:
                     return False
@@ -148,6 +159,8 @@ def to_model(rules, left_recursion=True):
             return g.Call(name=e[1])
         if k == 'opt':
             return g.Optional(exp=conv(e[1]))
+        if k == 'plus':
+            return g.PositiveClosure(exp=conv(e[1]))
         if k == 'star':
             return g.Closure(exp=conv(e[1]))
         if k == 'seq':
@@ -307,6 +320,8 @@ def plan(tier):
     # two rules x <= 2 alternatives each (3.26 million graphs) through directly built models:
     # quick takes every 150th graph, thorough all of them
     shards += [dict(kind='direct', index=i, nshards=16, stride=150 if tier == 'quick' else 1) for i in range(16)]
+    # the same shapes plus positive-closure prefixes ({['t']}+ {'t'}+ {[r]}+ {r}+): 1 rule x <= 2 alternatives and 2 rules x 1 alternative, all of them
+    shards += [dict(kind='plus', index=i, nshards=4) for i in range(4)]
     return shards
 
 
@@ -315,7 +330,46 @@ def run_shard(sh, kind, **kw):
         return run_enum(sh, **kw)
     if kind == 'direct':
         return run_direct(sh, **kw)
+    if kind == 'plus':
+        return run_plus(sh, **kw)
     return run_random(sh, **kw)
+
+
+def run_plus(sh, index, nshards):
+    b1 = bodies(1, 2, plus=True)
+    a2 = alternatives(2, plus=True)
+    graphs = [[('r0', b)] for b in b1] + [[('r0', a), ('r1', b)] for a in a2 for b in a2]
+    complete = True
+    for k, rules in enumerate(graphs):
+        if k % nshards != index:
+            continue
+        if k % 512 == index and sh.out_of_budget():
+            complete = False
+            break
+        if not any(e[0] == 'plus' for _, x in rules for e in _walk(x)):
+            continue   # covered by the other tiers
+        d, info = check_direct(rules)
+        sh.evaluations += 1
+        if (info.get('cycle') or info.get('nullable_prefix')) and not info.get('skipped'):
+            sh.nontrivial.add(('plus', k))
+        sh.classes['plus:cycle' if info.get('cycle') else 'plus:no-cycle'] += 1
+        if info.get('skipped'):
+            sh.classes['plus:skipped'] += 1
+        if d is not None:
+            sh.fail(d['bucket'], dict(rules=rules, direct=True), d)
+        elif k % 97 == 0:
+            dd, _ = check(rules, battery=True)     # the text route with the input battery on a sample
+            sh.classes['plus:text-route+battery'] += 1
+            if dd is not None:
+                sh.fail(dd['bucket'], dict(rules=rules), dd)
+    if len(sh.samples) < 2:
+        sh.samples.append(dict(grammar=grammar_text(graphs[5 + index]), note='positive-closure tier sample'))
+    sh.exhaustive[f'positive-closure prefixes: 1 rule x <= 2 alternatives and 2 rules x 1 alternative ({len(graphs)} graphs incl. those without one), detection + flags'] = complete
+
+
+def _walk(e):
+    from vf.gast import walk
+    return walk(e)
 
 
 def run_direct(sh, index, nshards, stride):
@@ -397,9 +451,10 @@ def run_random(sh, n):
             nr, ma = 3, rnd.choice([1, 1, 2])
         else:
             nr, ma = rnd.randint(4, 6), rnd.choice([1, 2])
-        if nr not in cache:
-            cache[nr] = alternatives(nr)
-        alts = cache[nr]
+        plus = rnd.random() < 0.5
+        if (nr, plus) not in cache:
+            cache[(nr, plus)] = alternatives(nr, plus)
+        alts = cache[(nr, plus)]
         rules = []
         for i in range(nr):
             if ma == 2 and rnd.random() < 0.6:
